@@ -160,6 +160,7 @@ class SeqWorld:
 # EventLog
 # ---------------------------------------------------------------------------
 KEYS = ["k0", "k1", "k2"]
+EL_ALPHA = ["a0", "a1", "ae", "an", "aa", "ab", "read", "wait"]
 
 
 class EventLogWorld(SeqWorld):
@@ -189,7 +190,7 @@ class EventLogWorld(SeqWorld):
     def applicable(self, i):
         if i >= self.start_tick + self.max_len:
             return ["end"]
-        opts = ["a0", "a1", "a2", "aa", "ab", "read", "wait"]
+        opts = list(EL_ALPHA)
         if i > self.start_tick:
             opts.append("end")
         return opts
@@ -199,6 +200,13 @@ class EventLogWorld(SeqWorld):
         out = []
         if op in ("a0", "a1", "a2"):
             out.append(self.spawn(script, ("app", KEYS[int(op[1])], self._v())))
+        elif op == "ae":
+            # the empty string is a key like any other
+            out.append(self.spawn(script, ("app", "", self._v())))
+        elif op == "an":
+            # an Append event that carries no 'key' at all: the log records it under key "" (Record.key == ""),
+            # so "a key always maps to the same partition" applies to it as well
+            out.append(self.spawn(script, ("appnokey", "", self._v())))
         elif op == "aa":
             out.append(self.spawn(script, ("app", KEYS[0], self._v())))
             out.append(self.spawn(script, ("app", KEYS[1], self._v())))
@@ -226,6 +234,18 @@ class EventLogWorld(SeqWorld):
             self.transitions += 1
             self.trace(f"t={now / TICK:g}s  append({key}, v{val}) -> partition {rec.partition} offset {rec.offset}")
             self.on_append(now, key, val, rec)
+        elif op[0] == "appnokey":
+            from happysimulator.core.sim_future import SimFuture
+            _, key, val = op
+            reply = SimFuture()
+            yield 0.0, [Event(time=worker.now, event_type="Append", target=self.log,
+                              context={"value": val, "reply_future": reply})]
+            rec = yield reply
+            now = worker.now.nanoseconds
+            self.transitions += 1
+            self.trace(f"t={now / TICK:g}s  Append event without key (v{val}) -> key {rec.key!r} partition "
+                       f"{rec.partition} offset {rec.offset}")
+            self.on_append(now, rec.key, val, rec)
         else:
             _, p, off = op
             recs = yield from self.log.read(p, off, 100)
@@ -334,11 +354,15 @@ class GroupWorld(SeqWorld):
                 opts += ["j" + m, "l" + m]
             else:
                 opts.append(("l" if m in self.members else "j") + m)
+        opts.append("wait")
         if i > 0:
             opts.append("end")
         return opts
 
     def apply(self, op, script, i):
+        if op == "wait":
+            self.trace(f"t={i}s  op wait   (pending rebalances: {self.pending})")
+            return []
         m = op[1]
         self.trace(f"t={i}s  op {'join' if op[0] == 'j' else 'leave'} {m}   (pending rebalances: {self.pending})")
         if self.pending:
@@ -377,6 +401,21 @@ class GroupWorld(SeqWorld):
         self.receipts.append((now, kind, m, tuple(sorted((k, tuple(v)) for k, v in asg.items()))))
         self.trace(f"t={now / TICK:g}s  rebalance after {'join' if kind == 'j' else 'leave'} {m}: members={members} "
                    f"assignments={asg} generation={g.generation}")
+        self.check_owners(now, f"the rebalance at {now}ns")
+        if self.viol is None and kind == "j" and parts is not None and m in members \
+                and sorted(parts) != sorted(asg.get(m, [])):
+            self.fail(f"one-owner/join-reply-differs/{self.cfg['strategy']}",
+                      f"join({m}) returned {parts} but assignments[{m}]={asg.get(m)}; ops {self.ops}")
+
+    def observe(self, i):
+        # every join / leave call has returned: all rebalances have settled
+        if self.viol is None and self.pending == 0 and i is not None:
+            self.check_owners(i * TICK, f"all rebalances settled (t={i}s)")
+
+    def check_owners(self, now, when):
+        g = self.group
+        asg = g.assignments
+        members = list(g.consumers)
         strat = self.cfg["strategy"]
         if not members:
             return
@@ -388,29 +427,28 @@ class GroupWorld(SeqWorld):
             o = owners.get(p, [])
             if not o:
                 self.fail(f"one-owner/unowned/{strat}",
-                          f"after the rebalance at {now}ns partition {p} has no owner: members={members} "
+                          f"after {when} partition {p} has no owner: members={members} "
                           f"assignments={asg}; ops {self.ops}")
                 return
             if len(o) > 1:
                 self.fail(f"one-owner/multiply-owned/{strat}",
-                          f"after the rebalance at {now}ns partition {p} is owned by {o}: assignments={asg}; ops {self.ops}")
+                          f"after {when} partition {p} is owned by {o}: assignments={asg}; ops {self.ops}")
                 return
             if o[0] not in members:
                 self.fail(f"one-owner/owner-not-member/{strat}",
-                          f"after the rebalance at {now}ns partition {p} belongs to {o[0]}, not a member "
+                          f"after {when} partition {p} belongs to {o[0]}, not a member "
                           f"({members}); ops {self.ops}")
                 return
         for p in owners:
             if not (0 <= p < self.cfg["P"]):
                 self.fail(f"one-owner/unknown-partition/{strat}", f"assignments={asg}; ops {self.ops}")
                 return
-        if kind == "j" and parts is not None and m in members and sorted(parts) != sorted(asg.get(m, [])):
-            self.fail(f"one-owner/join-reply-differs/{strat}",
-                      f"join({m}) returned {parts} but assignments[{m}]={asg.get(m)}; ops {self.ops}")
 
     def final(self):
         if self.viol is None and self.pending:
             self.fail("rebalance/not-completed", f"{self.pending} join/leave calls never returned; ops {self.ops}")
+        if self.viol is None:
+            self.check_owners(10 ** 15, "all rebalances settled (end of the sequence)")
 
 
 # ---------------------------------------------------------------------------
@@ -874,26 +912,27 @@ def jobs(name, tier):
     if name == "eventlog":
         n = 4 if quick else 5
         rets = [("none",), ("size", 1), ("size", 2), ("time", 1.5), ("time", 3.0)]
-        alpha = ["a0", "a1", "a2", "aa", "ab", "read", "wait"]
+        alpha = list(EL_ALPHA)
         for P in (1, 2, 3):
             for ret in rets:
                 out += _prefix_jobs("eventlog", {"P": P, "retention": ret, "interval": 1.5}, alpha, 1 if quick else 2, n)
         bounds = {"max_ops": n, "ops": alpha + ["end"], "partitions": [1, 2, 3], "retention": rets,
-                  "retention_check_interval_s": 1.5, "append_latency_s": 0.25, "read_latency_s": 0.125, "keys": KEYS}
+                  "retention_check_interval_s": 1.5, "append_latency_s": 0.25, "read_latency_s": 0.125, "keys": KEYS + ["", "<Append event without key>"]}
     elif name == "group":
-        # quick: membership toggles (join a non-member / leave a member), <= 6 ops.
-        # thorough: toggles <= 7 ops, plus the full alphabet incl. redundant joins / leaves, <= 5 ops.
-        fams = [(False, 6, 1)] if quick else [(False, 7, 2), (True, 5, 2)]
-        alpha = [a + m for m in "ABC" for a in "jl"]
+        # quick: membership toggles (join a non-member / leave a member; a name that left may re-join) + wait, <= 6 ops.
+        # thorough: the same <= 7 ops, plus the full alphabet incl. redundant joins / leaves + wait, <= 4 ops.
+        fams = [(False, 6, 1)] if quick else [(False, 7, 2), (True, 4, 2)]
+        alpha = [a + m for m in "ABC" for a in "jl"] + ["wait"]
         for full, n, plen in fams:
             for P in (1, 2, 3, 4):
                 for strat in ("Range", "RoundRobin", "Sticky"):
-                    for rdelay in (0.25, 1.5):
+                    for rdelay in (0.0, 0.25, 1.5):
                         cfg = {"P": P, "strategy": strat, "rdelay": rdelay, "full": full}
                         out += _prefix_jobs("group", cfg, alpha, plen, n)
         bounds = {"members": 3, "families (redundant joins/leaves allowed, max_ops)": [[f, n] for f, n, _ in fams],
                   "partitions": [1, 2, 3, 4], "strategies": ["Range", "RoundRobin", "Sticky"],
-                  "rebalance_delay_s": [0.25, 1.5]}
+                  "rebalance_delay_s": [0.0, 0.25, 1.5],
+                  "ops": "join / leave per member (a name that left may join again) + wait (a quiet tick)"}
     elif name == "commit":
         n = 4 if quick else 5
         alpha = ["cA1", "cA2", "cA3", "cB1", "cB3", "jB", "lB", "lA", "jA", "pA"] + ([] if quick else ["pB"])
